@@ -65,6 +65,10 @@ def gen_program(rng, tags):
 
 def gen_times(rng, forest, t0, scale, zero_bias):
     gaps = (0, 0, 1, 2, 5, 50, 333) if zero_bias else (1, 2, 3, 5, 50, 333, 1000)
+    if scale >= 10 ** 9:
+        # keep every printed figure below 24 minutes: above that __print_time_unit divides minutes by
+        # 24 to get "hours" (35 min is printed as 1.011 h) - reported as a finding, kept out of the generator
+        gaps = (0, 1, 2, 5, 20)
     clock = [t0]
 
     def go(c):
@@ -378,9 +382,9 @@ Definition truth_ok t := match i_truth t with
 Definition prop_table t := match i_truth t with Some tts => ok_table (c_names (tc t)) tts (i_tbl t) | None => true end.
 Definition prop_sorted t := forallb (fun p => ok_sorted (fst p) (i_tbl t) (snd p)) (i_sorts t).
 Record ecase := mke { ec : case; e_tbl : list node; e_runs : list (list key * list fld * list line);
-                      e_task : list (cell * cell * N); e_truth : option (list ttrace); e_diff0 : list (list cell) }.
+                      e_task : list (cell * cell * N); e_truth : option (list ttrace); e_diff0 : list (list cell); e_clean : bool }.
 Definition e_model_ok t := forallb (fun r => let '(ks, fs, out) := r in lines_eqb (stdout_model ks fs (report (ec t))) out) (e_runs t).
-Definition e_prop_ok t := forallb (fun r => let '(ks, fs, out) := r in ok_stdout ks fs (e_tbl t) out) (e_runs t).
+Definition e_prop_ok t := negb (e_clean t) || forallb (fun r => let '(ks, fs, out) := r in ok_stdout ks fs (e_tbl t) out) (e_runs t).
 Definition e_task_model t := match e_task t with [] => true | l =>
    lines_eqb (map (fun p => (snd p, [fst (fst p); snd (fst p)])) l)
              (map (fun rs => let '(tot, n) := task_line (c_max (ec t)) rs in (n, [fmt_time tot; fmt_time tot])) (c_tasks (ec t))) end.
@@ -470,8 +474,11 @@ def run_e2e(ctx, objdir, case, d, res, amap, num):
         ctx.tag("e2e:--diff-self")
     elif res["nodes"]:
         ctx.violation("uftrace report --diff DIR DIR failed (rc=%d)" % rc, {"case": case_json(case), "stderr": err[-800:]}, True)
-    return "mke (%s) %s %s %s (%s) %s" % (q_case(case, amap), q_list([q_node(n, num) for n in res["nodes"]]),
-                                          q_list(runs), q_list(task_lines), q_truth(case), q_list(diff0))
+    # LOST markers: the figures of the open calls are whatever the code makes of them (see the report); the
+    # printed cells are compared with the model only
+    return "mke (%s) %s %s %s (%s) %s %s" % (q_case(case, amap), q_list([q_node(n, num) for n in res["nodes"]]),
+                                             q_list(runs), q_list(task_lines), q_truth(case), q_list(diff0),
+                                             coq.coq_bool(case["kind"] != "lost"))
 
 
 # ---------------------------------------------------------------- json (replay files)
